@@ -93,3 +93,8 @@ for sp in ["srgb", "adobe", "prophoto", "p3"]:
     gen_family("C02", "Prism.Check.C02", "enc" + sp, f"enc16ChunkOk .{sp}",
                extra_all=f"theorem enc{sp}_8 : enc8TableOk .{sp} = true := by decide +kernel\ntheorem enc{sp}_ends : encEndpointsOk .{sp} = true := by decide +kernel\n")
 print("wrote C02 families")
+
+for sp in ["srgb", "adobe", "prophoto", "p3"]:
+    gen_family("C02", "Prism.Check.C02Acc", "acc" + sp, f"enc16AccChunk .{sp}",
+               extra_all=f"theorem acc{sp}_8 : enc8AccTable .{sp} = true := by decide +kernel\n")
+print("wrote C02 accuracy families")
